@@ -297,8 +297,9 @@ PAC_ROW = {1: (0x11, 0x40), 2: (0x11, 0x60), 3: (0x12, 0x40), 4: (0x12, 0x60), 5
 
 
 def cc_script(rng, n_steps):
-    """well-formed caption scripts: roll-up with every base row (also rows smaller than the roll-up depth), pop-on with
-    EOC, paint-on, text mode; control codes doubled as on field 1"""
+    """well-formed caption scripts: roll-up with every base row (also rows smaller than the roll-up depth), roll-up depth
+    changes RU2 <-> RU3 <-> RU4 without leaving roll-up mode around PACs to the top rows, pop-on with EOC, paint-on, text
+    mode; control codes doubled as on field 1"""
     out = []
     f = 1 if rng.random() < 0.8 else 2
     ch = rng.randrange(2)
@@ -315,8 +316,22 @@ def cc_script(rng, n_steps):
         if len(bs) % 2: bs.append(0)
         for i in range(0, len(bs), 2): out.append((f, T.par(bs[i]), T.par(bs[i + 1])))
     for _ in range(n_steps):
-        mode = rng.choice(["ru", "ru", "pop", "paint", "text"])
-        if mode == "ru":
+        mode = rng.choice(["ru", "ru", "rud", "pop", "paint", "text"])
+        if mode == "rud":
+            # depth changes inside roll-up mode (larger and smaller, every order), PACs to every row - mostly rows 1..4,
+            # where the window does not fit above the base row - before and after the change, then carriage returns
+            depth = rng.randrange(3)
+            ctl(0x25 + depth)
+            for _ in range(rng.randrange(1, 5)):
+                if rng.random() < 0.8: pac(rng.randrange(1, 5) if rng.random() < 0.7 else rng.randrange(1, 16), rng.randrange(32))
+                if rng.random() < 0.5: txt(rng.choice(WORDS) + " ")
+                if rng.random() < 0.3: ctl(0x2D)
+                depth = rng.choice([d for d in range(3) if d != depth])
+                ctl(0x25 + depth)
+                if rng.random() < 0.4: pac(rng.randrange(1, 5) if rng.random() < 0.7 else rng.randrange(1, 16), rng.randrange(32))
+                if rng.random() < 0.5: txt(rng.choice(WORDS) + " " + rng.choice(WORDS))
+                for _ in range(rng.randrange(1, 4)): ctl(0x2D)
+        elif mode == "ru":
             ctl(rng.choice([0x25, 0x26, 0x27]))
             for _ in range(rng.randrange(1, 5)):
                 if rng.random() < 0.7: pac(rng.randrange(1, 16), rng.randrange(32))
